@@ -12,10 +12,12 @@ EXTENDS VfsJudge, Integers
 Recs == ndJsonDeserialize(IOEnv.TRACE)
 
 SingleStep == {"mkdir_p", "mkdir_m", "mkfile", "remove", "remove_all", "move_p", "copy", "symlink", "set_cwd", "append_all", "write_all",
+               "append_line", "append_lines", "write_lines",      \* one append_all / write_all each
                "read_all", "read_lines", "read", "exists", "is_dir", "is_file", "is_symlink", "is_symlink_dir", "is_symlink_file", "is_exec",
                "is_readonly", "mode", "owner", "uid", "gid", "readlink", "readlink_abs", "cwd", "root", "entry", "abs",
                "paths", "dirs", "files", "all_paths", "all_dirs", "all_files"}       \* "listing snapshots"
-WriteOps == {"mkdir_p", "mkdir_m", "mkfile", "remove", "remove_all", "move_p", "copy", "symlink", "set_cwd", "append_all", "write_all"}
+WriteOps == {"mkdir_p", "mkdir_m", "mkfile", "remove", "remove_all", "move_p", "copy", "symlink", "set_cwd", "append_all", "write_all",
+             "append_line", "append_lines", "write_lines"}
 
 \* the tree every run starts from (harness: default_tree): /a/c directories, /f file "0"
 Init0 == [fs |-> (Root :> NDir(MemOwn)), cwd |-> Root]
